@@ -181,6 +181,7 @@ def run(ctx):
     ctx.rule("R16.1", "PER-TAG: for every scalar tag and all pairs/triples of domain values: eq(l,r) == (cmp(l,r)==0); sign cmp(l,r) == -sign cmp(r,l); cmp follows the documented order; cmp is transitive")
     ctx.rule("R16.2", "ARRAY-GUARD: the element-type guard of the 'a' case is the same truth table over all tag pairs in eq and cmp, and both functions list the same case labels")
     ctx.rule("R16.3", "TYPE-MISMATCH: values of different type are unequal and compare antisymmetrically non-zero")
+    ctx.rule("R16.5", "SLOTS-RELATIVE: in the list-level functions the slot counts lsize/rsize are used only as arguments of the has_next / eq_after_abort helpers or minus the position (.i) of their own iterator - a raw slot count says nothing about the number of values once runs are compressed")
     ctx.rule("R16.4", "ITER-ONLY: rtosc_arg_vals_eq, rtosc_arg_vals_cmp and rtosc_avmessage read their argument arrays only through rtosc_arg_val_itr_init/get/next")
 
     # ---- labels
@@ -303,3 +304,40 @@ def run(ctx):
             ctx.ob("R16.4", "%s(%s)" % (q, ps[pi].get("name")), ok and gets >= 1 and nexts >= 1, site=A.where(fn),
                    detail={"uses": len(uses), "itr_get": gets, "itr_next": nexts},
                    what="%s reads its argument array `%s` other than through the range-aware iterator" % (q, ps[pi].get("name")))
+
+    # ---- R16.5
+    for q in ("rtosc_arg_vals_eq", "rtosc_arg_vals_cmp"):
+        fn = u.function(q)
+        ps = u.params(fn)
+        pair = {ps[2]["id"]: ("lsize", "litr"), ps[3]["id"]: ("rsize", "ritr")}
+        # iterator variables by declaration order
+        itrs = [x for x in A.walk(u.body(fn)) if x.get("kind") == "VarDecl" and "rtosc_arg_val_itr" in A.stype(x)]
+        itr_of = {}
+        if len(itrs) >= 2:
+            itr_of[ps[2]["id"]] = itrs[0]["id"]
+            itr_of[ps[3]["id"]] = itrs[1]["id"]
+        bad = []
+        nuse = 0
+        for x in A.walk(u.body(fn)):
+            if x.get("kind") == "DeclRefExpr" and x["referencedDecl"]["id"] in pair:
+                nuse += 1
+                pid = x["referencedDecl"]["id"]
+                ok = False
+                child = x
+                for p_ in u.ancestors(x):
+                    k = p_.get("kind")
+                    if k in ("ImplicitCastExpr", "ParenExpr"):
+                        child = p_
+                        continue
+                    if k == "CallExpr" and A.callee_name(p_) in ("rtosc_arg_vals_cmp_has_next", "rtosc_arg_vals_eq_after_abort"):
+                        ok = True
+                    elif k == "BinaryOperator" and p_.get("opcode") == "-":
+                        l, r = A.kids(p_)
+                        rr = A.strip_casts(r)
+                        if A.strip_casts(l).get("id") == x.get("id") and rr.get("kind") == "MemberExpr" and rr.get("name") == "i" and A.ref_id(A.kids(rr)[0]) == itr_of.get(pid):
+                            ok = True
+                    break
+                if not ok:
+                    bad.append("%s at %s" % (pair[pid][0], A.where(x)))
+        ctx.ob("R16.5", q, nuse >= 2 and not bad, site=A.where(fn), detail={"uses": nuse, "raw_uses": bad},
+               what="%s uses a raw slot count (%s): compressed and expanded lists of the same values have different slot counts" % (q, bad))
